@@ -77,6 +77,10 @@ def check_props(root, pid, extra_files=()):
             res['log'] += 'missing ' + f + '\n'
             continue
         rc, out, _ = sh(['coqc', '-Q', '.', 'Clip', f], cwd=coq, timeout=1200)
+        if rc != 0 and 'inconsistent assumptions' in out:
+            # a compiled dependency is older than what it imports (an interrupted build): finish the build, retry once
+            sh(['make', '-j16'], cwd=coq, timeout=2400)
+            rc, out, _ = sh(['coqc', '-Q', '.', 'Clip', f], cwd=coq, timeout=1200)
         res['log'] += out[-4000:]
         if rc == 0:
             res['discharged'] += names
@@ -352,7 +356,8 @@ def run(root, pid, tier, seed, replay):
         print('ERROR: check machinery failed:', e)
         return 2
     violations += found
-    if violations and violations[0].get('kind') == 'proof-broken' and any(not v.get('no_input') for v in found):
+    _known_keys = set(k['key'] for k in known if k['property'] == pid)
+    if violations and violations[0].get('kind') == 'proof-broken' and any(not v.get('no_input') and v['key'] not in _known_keys for v in found):
         # the search found concrete failing inputs for the broken obligation: they are reported below
         violations[0]['no_input'] = False
         violations[0]['text'] += ' (concrete failing inputs found by the search: see the following replays)'
